@@ -11,7 +11,7 @@ PROOF_NOTE = ("Trusted: Lean 4.33 kernel; axioms propext/Classical.choice/Quot.s
 
 # id -> (text, note-extra, technique, design_ref)
 CHECKS = {
- "C01": ("Lean theorems over ALL finite histories of in-memory broker atoms (any interleaving, any cancellation point = atom prefix): per-id conservation (mem_count), exactly-one-place (mem_exactly_one_place / mem_onePlace), per-op clauses (ack_removes, nack_dead_letters, requeue_replaces, reject_origin_partial + refutation witnesses).  Redis broker (model Redis.R, every round trip / MULTI…EXEC an atom): redis_ack_removes, redis_nack_dead_letters, redis_reject_origin (FULL origin clause), redis_requeue_atomic (one transaction: no in-between state), take_marks_processing.  RabbitMQ (model Rabbit.S over an abstract AMQP server): rabbit_ack_removes, rabbit_nack_dead_letters, rabbit_reject_origin, refutations rabbit_requeue_window_witness (F2r) and rabbit_nack_nonnormal_witness (F23). "
+ "C01": ("Lean theorems over ALL finite histories of in-memory broker atoms (any interleaving, any cancellation point = atom prefix): per-id conservation (mem_count), exactly-one-place (mem_exactly_one_place / mem_onePlace), per-op clauses (ack_removes, nack_dead_letters, requeue_replaces, reject_origin_partial + refutation witnesses).  Redis broker (model Redis.R, every round trip / MULTI…EXEC an atom): redis_conservation (after ANY finite history of enqueue / take from any category / ack / nack / reject / requeue by well-behaved clients every message is in at most one place; step_places: an operation changes only its own message's places, to 0 by ack and to 1 otherwise), redis_ack_removes, redis_nack_dead_letters, redis_reject_origin (FULL origin clause), redis_requeue_atomic (one transaction: no in-between state), take_marks_processing.  RabbitMQ (model Rabbit.S over an abstract AMQP server): rabbit_ack_removes, rabbit_nack_dead_letters, rabbit_reject_origin, refutations rabbit_requeue_window_witness (F2r) and rabbit_nack_nonnormal_witness (F23). "
          "The code-model is compared with the real InMemoryMessageBroker after every call of random well-behaved sessions, and every call kind is cancelled at every event-loop callback index; Lean predicates are evaluated on the implementation's snapshots. Redis: sessions on the real RedisMessageBroker/_RedisConsumer against an in-process fake server, state compared with Redis.R after every call; exactly-one-place evaluated on the fake server's keyspace; a call that never returns is reported with the history so far. RabbitMQ: sessions on the real RabbitMessageBroker/_RabbitConsumer against an in-process fake AMQP server, state vs Rabbit.S after every call; requeue cancelled after every event-loop step; nack outside the NORMAL category.",
          "in-memory, Redis and RabbitMQ brokers (Redis / AMQP servers = in-process fakes, assumption sets R, A); queue_flush/delete excluded.",
          "Lean 4 proof (induction over atom histories) + differential correspondence + cancellation-point enumeration", "§5 C01"),
